@@ -5,6 +5,10 @@ From Mage Require Import Base.Strs Base.Expand Model.Slices.
 Definition argvchild_out (argv : list string) : string :=
   String.append (String.concat " " (tl argv)) (String (ascii_of_nat 10) EmptyString).
 
+(* n copies of s: long "slow to expand" cells of concurrent cases are written (rep_str "${Z}" n) *)
+Fixpoint rep_str (s : string) (n : nat) : string :=
+  match n with O => EmptyString | S n' => String.append s (rep_str s n') end.
+
 Definition S_ (id off len cap : nat) : slice := {| s_id := id; s_off := off; s_len := len; s_cap := cap |}.
 Definition C_ (k : kind) (cmd : string) (baked : slice) : closure := {| cl_kind := k; cl_cmd := cmd; cl_baked := baked |}.
 
